@@ -28,7 +28,13 @@ static void load_reference() {     // the declared-input view of the current man
   State st; SymDisk d; std::string err; ManifestParser p(&st, &d);
   if (p.Load("build.ninja", &err)) build_reference(&st);
 }
+static bool g_only_discovered_missing;
 static void user_operations(const Scenario* sc) {
+#ifdef CHECK_C10
+  // a header that is only known through depfile / deps log may vanish (the source no longer includes it)
+  { std::vector<std::string> src0 = split_words(sc->sources); g_only_discovered_missing = false;
+    for (size_t i = 0; i < src0.size(); i++) if (src0[i].compare(0, 3, "hdr") == 0 && verif_bool("discovered_header_vanishes")) { g_tree->remove(src0[i]); g_only_discovered_missing = true; verif_reach("header-vanished"); } }
+#endif
   // any subset of the sources (incl. headers only known through depfiles) is edited
   std::vector<std::string> src = split_words(sc->sources);
   for (size_t i = 0; i < src.size(); i++) if (verif_bool("edit_source")) { edit_file(src[i]); verif_note(("edit " + src[i]).c_str()); }
@@ -245,19 +251,72 @@ extern "C" int harness_main() {
   verif_reach("recovered");
   return 0;
 }
+#elif defined(MODE_DYNDEP_BAD)
+// ------------------------------------------------------------------------------------------------ C11: ill-formed dyndep files make the build fail
+extern "C" int harness_main() {
+  ir2c_global_ctors();
+  const Scenario* sc = &kScenarios[SCENARIO];       // the dyndep scenario: dd is produced during the build, out binds it
+  init_tree(sc);
+  static const char* kValid = "ninja_dyndep_version = 1\nbuild out | out.imp: dyndep | h2\n";
+  std::string text; bool must_fail = true, either = false;
+  int kind = verif_choice("bad_kind", 9);
+  if (kind == 0) {            // truncated at a symbolic byte
+    int full = (int)strlen(kValid); int cut = (int)verif_nondet("cut", 0, full);
+    text.assign(kValid, (size_t)cut);
+    int stmt_end = (int)(strstr(kValid, ": dyndep") - kValid) + 8;     // "...: dyndep" is a complete statement (it merely says less)
+    // complete prefixes: the whole file (with or without the final newline), or the statement without its implicit inputs
+    if (cut == full) must_fail = false;
+    if (cut == full - 1 || cut == stmt_end) either = true;       // a complete statement without its line end: ninja may accept or reject it
+    verif_reach("truncated");
+  }
+  else if (kind == 1) text = "ninja_dyndep_version = 1\n";                                                          // omits the statement
+  else if (kind == 2) text = "ninja_dyndep_version = 1\nbuild out | out.imp: dyndep | h2\nbuild out: dyndep\n";     // names an output twice
+  else if (kind == 3) text = "ninja_dyndep_version = 1\nbuild out | h2: dyndep\n";                                   // claims an output another statement produces
+  else if (kind == 4) text = "ninja_dyndep_version = 1\nbuild out | out.imp: dyndep | x\n";                          // closes a cycle (x is built from out)
+  else if (kind == 5) text = "ninja_dyndep_version = 1\nbuild out | out.imp: dyndep | h2\nbuild x: dyndep\n";       // adds a statement without the binding
+  else if (kind == 6) text = "build out | out.imp: dyndep | h2\n";                                                   // no version line
+  else if (kind == 7) text = "ninja_dyndep_version = 1\nbuild out | out.imp: dyndep | h2\nbuild nosuch: dyndep\n";  // unknown output
+  else { text = kValid; must_fail = false; }
+  g_dyndep_override = &text;
+  InvocationOpts o; o.targets = split_words(sc->targets); o.run.parallelism = 1 + verif_choice("jobs_minus_1", 2);
+  bool preexisting = verif_bool("dyndep_file_already_present");
+  if (preexisting) g_tree->write_text("dd", text);
+  InvocationResult r = invoke(o);
+  observe(r);
+  bool failed = !r.added || r.rc != 0;
+  if (either) return 0;
+  if (must_fail) { VERIF_ASSERT(failed && !r.err.empty(), "C11: a missing, malformed, truncated or inconsistent dyndep file makes the build fail with an error"); verif_reach("rejected"); }
+  else { VERIF_ASSERT(!failed, "C11: a well-formed dyndep file is accepted"); verif_reach("accepted"); }
+  return 0;
+}
 #else
 // ------------------------------------------------------------------------------------------------ histories: C01 C02 C03 C04 C10 C11
 extern "C" int harness_main() {
   ir2c_global_ctors();
   const Scenario* sc = &kScenarios[SCENARIO];
   init_tree(sc);
+#if defined(CHECK_C10)
+  g_msg_fresh = "C10: a generated dependency known from depfile/deps log is brought up to date before the command runs, whatever else is out of date";
+#elif defined(CHECK_C11)
+  g_msg_fresh = "C11: inputs discovered through a dyndep file order the build like inputs written in the manifest";
+#endif
+#ifdef PREBUILD_SEQ
+  { // the targets built one after the other, as a user without a manifest path between them would have to
+    std::vector<std::string> menu = split_words(sc->targets);
+    for (size_t i = 0; i < menu.size(); i++) { InvocationOpts o0; o0.targets.push_back(menu[i]); InvocationResult r0 = invoke(o0); VERIF_ASSERT(r0.added && r0.rc == 0, "set-up: sequential initial builds succeed"); }
+  }
+#endif
   for (int inv = 0; inv < HISTORY; inv++) {
+#ifdef PREBUILD_SEQ
+    user_operations(sc);
+#else
     if (inv > 0) user_operations(sc);
+#endif
     InvocationOpts o;
     o.targets = symbolic_targets(sc, "request_target");
     o.run.parallelism = 1 + verif_choice("jobs_minus_1", 2);
     o.failures_allowed = 1;
-#ifdef CHECK_C04
+#if defined(CHECK_C04) || defined(CHECK_C10) || defined(CHECK_C11)
     o.run.check_inputs_fresh = true;
 #endif
 #ifdef HISTORY_FAIL
@@ -277,6 +336,12 @@ extern "C" int harness_main() {
 #ifdef CHECK_C01
       assert_clean_equal(o.targets, "C01: after a successful build every requested target and everything it depends on equals the from-scratch build");
 #endif
+#ifdef CHECK_C10
+      assert_clean_equal(o.targets, "C10: a change to a dependency known from depfile/deps log re-runs the command exactly as a declared implicit input would");
+#endif
+#ifdef CHECK_C11
+      assert_clean_equal(o.targets, "C11: a build driven by dyndep files reaches the same final state as the manifest with that information written in");
+#endif
 #ifdef CHECK_C03
       if (r.failed.empty()) {
         A03(same_set(r.started, expect), "C03: exactly the commands affected by the change are run");
@@ -291,7 +356,12 @@ extern "C" int harness_main() {
       A02(r3.added && r3.rc == 0 && r3.started.empty() && r3.up_to_date, "C02: ... and neither has the run after that");
       verif_reach("converged-checked");
 #endif
-    } else verif_reach("failed-build");
+    } else {
+      verif_reach("failed-build");
+#ifdef CHECK_C10
+      VERIF_ASSERT(r.err.find("missing and no known rule") == std::string::npos || !g_only_discovered_missing, "C10: a discovered dependency that has disappeared causes a rebuild, not an error");
+#endif
+    }
   }
   return 0;
 }
